@@ -1,9 +1,363 @@
-import Model.Common
-/-! Oracle handlers for C16 (stub until the property's model exists). -/
-namespace OracleC16
-open Common
+import Model.C16
+import Std.Data.TreeMap
+/-!
+Oracle handlers for C16: model output (correspondence) and judge (property on impl output).
 
-def handle (_cmd : String) (_f : List String) : String × String × String :=
-  ("unknown-cmd", "-", "-")
+Lines (3 input fields each, `-` = unused):
+* `C16.rand  stream req taken  | obs`            RandomTokenGenerator.GenerateTokens on a recorded stream
+* `C16.inst  zone n -          | obs`            generateAllTokens for instance n
+* `C16.gen   zone,n req taken  | all512 obs`     SpreadMinimizingTokenGenerator.GenerateTokens
+* `C16.map   zone n -          | lists`          the whole tokensByInstanceID map (generation order)
+* `C16.part  ids - -           | lists`          PartitionRingDesc after AddPartition of ids
+* `C16.calc  token prev opt    | obs`            calculateNewToken
+* `C16.opt   i curr remaining  | obs`            optimalTokenOwnership(2^32/(i+1), curr, remaining)
+* `C16.less  oi,ki oj,kj -     | bool`           ownershipPriorityQueue.Less
+* `C16.dist  from to -         | d`              tokenDistance
+-/
+namespace OracleC16
+open Common C16
+
+/-! ### memoised generator states
+
+`states z` is a lazy list whose k-th cell is `genUpTo z k`; each tail is a `Thunk`, so a state is
+computed once per oracle process however many lines ask for it. Built with the model's own
+`initState`/`addInstance`; `C16.map` lines use `C16.genUpTo` directly, so both routes are compared
+with the implementation. -/
+inductive LStream where
+  | nil : LStream
+  | cons : Except Err (List Nat × Bool) → Thunk LStream → LStream
+
+def build : Nat → Nat → Except Err State → LStream
+  | 0, _, _ => .nil
+  | f + 1, i, s =>
+    .cons (s.map fun st => (st.toks.getLastD [], st.degenerate))
+      (Thunk.mk fun _ => build f (i + 1) (s >>= addInstance (i + 1)))
+
+set_option compiler.extract_closed false in
+def streams : Array (Thunk LStream) :=
+  (Array.range 8).map fun z => Thunk.mk fun _ => build 8192 0 (.ok (initState z))
+
+def nth : LStream → Nat → Except Err (List Nat × Bool)
+  | .nil, _ => .error .outOfDomain
+  | .cons s _, 0 => s
+  | .cons _ t, k + 1 => nth t.get k
+
+def stateAt (z n : Nat) : Except Err (List Nat × Bool) :=
+  match streams[z]? with
+  | some t => nth t.get n
+  | none => (genUpTo z n).map fun st => (st.toks.getLastD [], st.degenerate)
+
+/-- cells 0..n of a stream -/
+def prefixCells : LStream → Nat → List (Except Err (List Nat × Bool))
+  | .nil, _ => [.error .outOfDomain]
+  | .cons s _, 0 => [s]
+  | .cons s t, k + 1 => s :: prefixCells t.get k
+
+/-- (tokensByInstanceID, ghost flag) for instance n: the model's `genUpTo` itself for small n, the
+memoised unfolding of the same recursion for large n. -/
+def mapAt (z n : Nat) : Except Err (List (List Nat) × Bool) :=
+  if n ≤ 50 then (genUpTo z n).map (fun s => (s.toks, s.degenerate))
+  else match streams[z]? with
+    | some t => do
+      let cells ← (prefixCells t.get n).mapM id
+      pure (cells.map (·.1), cells.any (·.2))
+    | none => (genUpTo z n).map (fun s => (s.toks, s.degenerate))
+
+def allTokensAt (z n : Nat) : Except Err (List Nat) :=
+  (stateAt z n).map (fun s => sortTokens s.1)
+
+/-! ### helpers -/
+
+def showToks (l : List Nat) : String := showNatList l
+
+def showRes : Except Err (List Nat) → String
+  | .ok l => "ok:" ++ showToks l
+  | .error e => "err:" ++ e.name
+
+def showLists (ls : List (List Nat)) : String := ";".intercalate (ls.map showToks)
+
+def parseLists (s : String) : Option (List (List Nat)) := (s.splitOn ";").mapM natList?
+
+def parseOk (s : String) : Option (List Nat) :=
+  if s.startsWith "ok:" then natList? (s.drop 3).toString else none
+
+def strictlySorted : List Nat → Bool
+  | [] => true
+  | [_] => true
+  | a :: b :: r => a < b && strictlySorted (b :: r)
+
+def sizeClass (n : Nat) : String :=
+  if n == 0 then "0" else if n ≤ 2 then "1-2" else if n ≤ 16 then "3-16" else if n ≤ 100 then "17-100"
+  else if n ≤ 511 then "101-511" else if n == 512 then "512" else ">512"
+
+def coarse (n : Nat) : String :=
+  if n == 0 then "0" else if n ≤ 16 then "1-16" else if n ≤ 511 then "17-511" else if n == 512 then "512" else ">512"
+
+def idClass (n : Nat) : String :=
+  if n == 0 then "0" else if n ≤ 16 then "1-16" else if n ≤ 100 then "17-100"
+  else if n ≤ 400 then "101-400" else ">400"
+
+def mkSet (l : List Nat) : Std.TreeMap Nat Unit compare := l.foldl (fun m x => m.insert x ()) {}
+
+def judgeStr (bad : List String) : String := if bad.isEmpty then "-" else ",".intercalate bad.reverse
+
+/-! ### judges (written from the property text; never call the generator model) -/
+
+/-- sorted, duplicate free, nothing taken, requested count. -/
+def judgeRand (req : Int) (taken ts : List Nat) : List String := Id.run do
+  let mut bad : List String := []
+  let tk := mkSet taken
+  if !strictlySorted ts then bad := "not-sorted-or-duplicate" :: bad
+  if ts.any (fun t => tk.contains t) then bad := "taken-token-returned" :: bad
+  if ts.any (fun t => t ≥ 4294967296) then bad := "not-a-token" :: bad
+  if (ts.length : Int) != max req 0 then bad := "wrong-count" :: bad
+  return bad
+
+/-- the 512 tokens of one instance: count, sorted, unique, congruent to the zone. -/
+def judgeInst (z : Nat) (ts : List Nat) : List String := Id.run do
+  let mut bad : List String := []
+  if ts.length != 512 then bad := "not-512-tokens" :: bad
+  if !strictlySorted ts then bad := "not-sorted-or-duplicate" :: bad
+  if ts.any (fun t => t % 8 != z || t ≥ 4294967296) then bad := "not-congruent-to-zone" :: bad
+  return bad
+
+/-- GenerateTokens: subset of the instance's tokens, untaken, sorted, `min(req, #free)` many. -/
+def judgeGen (req : Int) (taken all ts : List Nat) : List String := Id.run do
+  let mut bad : List String := []
+  let tk := mkSet taken
+  let al := mkSet all
+  if !strictlySorted ts then bad := "not-sorted-or-duplicate" :: bad
+  if ts.any (fun t => tk.contains t) then bad := "taken-token-returned" :: bad
+  if ts.any (fun t => !al.contains t) then bad := "not-a-token-of-the-instance" :: bad
+  let free := (all.filter (fun t => !tk.contains t)).length
+  if ts.length != min req.toNat free then bad := "wrong-count" :: bad
+  return bad
+
+/-- number of keys in `(a, b]` going clockwise (`a = b`: the whole ring); the judge's own definition. -/
+def ringDist (a b : Nat) : Nat := if a < b then b - a else 4294967296 + b - a
+
+/-- per-prefix ownership spread. Instances are added one at a time to a ring (token -> owner);
+a new token takes the part `(pred, t]` of its successor's range. After each instance the smallest
+and largest ownership of the instances present must be within 1% (`100*(max-min) <= max`).
+Returns (duplicates, worst prefix with spread above 1%, worst spread in 1/1000 %). -/
+def spreadScan (lists : List (List Nat)) : Nat × Option Nat × Nat := Id.run do
+  let mut ring : Std.TreeMap Nat Nat compare := {}
+  let mut own : Array Int := Array.replicate lists.length 0
+  let mut dups := 0
+  let mut badPrefix : Option Nat := none
+  let mut worst : Nat := 0
+  let mut k := 0
+  for l in lists do
+    for t in l do
+      if ring.contains t then
+        dups := dups + 1
+      else if ring.isEmpty then
+        ring := ring.insert t k
+        own := own.set! k 4294967296
+      else
+        let succ := match ring.getEntryGE? t with
+          | some e => e
+          | none => (ring.minEntry?).getD (0, 0)
+        let pred := match ring.getEntryLT? t with
+          | some e => e
+          | none => (ring.maxEntry?).getD (0, 0)
+        let d : Int := ringDist pred.1 t
+        own := own.set! succ.2 (own[succ.2]! - d)
+        own := own.set! k (own[k]! + d)
+        ring := ring.insert t k
+    let mut mn := own[0]!
+    let mut mx := own[0]!
+    for j in [0:k+1] do
+      let o := own[j]!
+      if o < mn then mn := o
+      if o > mx then mx := o
+    if 100 * (mx - mn) > mx then
+      if badPrefix.isNone then badPrefix := some k
+    let sp := if mx > 0 then (100000 * (mx - mn) / mx).toNat else 0
+    if sp > worst then worst := sp
+    k := k + 1
+  return (dups, badPrefix, worst)
+
+def judgeMap (z n : Nat) (lists : List (List Nat)) : List String × Nat := Id.run do
+  let mut bad : List String := []
+  if lists.length != n + 1 then bad := "wrong-instance-count" :: bad
+  if lists.any (fun l => l.length != 512) then bad := "not-512-tokens" :: bad
+  if lists.any (fun l => l.any (fun t => t % 8 != z || t ≥ 4294967296)) then bad := "not-congruent-to-zone" :: bad
+  let (dups, badPrefix, worst) := spreadScan lists
+  if dups != 0 then bad := "token-shared-by-instances" :: bad
+  match badPrefix with
+  | some k => bad := s!"spread-above-1%-at-prefix-{k}" :: bad
+  | none => pure ()
+  return (bad, worst)
+
+def judgePart (ids : List Nat) (lists : List (List Nat)) : List String := Id.run do
+  let mut bad : List String := []
+  let distinct := (mkSet ids).keys
+  if lists.length != distinct.length then bad := "wrong-partition-count" :: bad
+  if lists.any (fun l => l.length != 512) then bad := "not-512-tokens" :: bad
+  if lists.any (fun l => !strictlySorted l) then bad := "not-sorted-or-duplicate" :: bad
+  let all := lists.flatten
+  if (mkSet all).size != all.length then bad := "token-shared-by-partitions" :: bad
+  return bad
+
+/-! ### handlers -/
+
+def handleRand (f : List String) : String × String × String :=
+  match f with
+  | [st, rq, tk, obs] =>
+    match natList? st, rq.toInt?, natList? tk with
+    | some stream, some req, some taken =>
+      let m := showRes (genRandom stream req taken)
+      let diff := if m == obs then "-" else "model=" ++ m
+      let judge := match parseOk obs with
+        | some ts => judgeStr (judgeRand req taken ts)
+        | none => "-"      -- stream exhausted: the call did not return
+      let rejected := stream.length - (if req > 0 then req.toNat else 0)
+      (diff, judge, s!"kind=rand req={if req < 0 then "neg" else if req == 0 then "0" else if req < 512 then "1-511" else ">=512"} rejected={if rejected == 0 then "0" else ">0"} res={(obs.take 3).toString}")
+    | _, _, _ => ("bad-input", "-", "-")
+  | _ => ("bad-fields", "-", "-")
+
+def handleInst (f : List String) : String × String × String :=
+  match f with
+  | [zs, ns, _, obs] =>
+    match zs.toNat?, ns.toNat? with
+    | some z, some n =>
+      let m := showRes (allTokensAt z n)
+      let diff := if m == obs then "-" else "model=" ++ (m.take 200).toString
+      let judge := match parseOk obs with
+        | some ts => judgeStr (judgeInst z ts)
+        | none => "generation-failed"
+      (diff, judge, s!"kind=inst id={idClass n}")
+    | _, _ => ("bad-input", "-", "-")
+  | _ => ("bad-fields", "-", "-")
+
+def handleGen (f : List String) : String × String × String :=
+  match f with
+  | [zn, rq, tk, alls, obs] =>
+    match natList? zn, rq.toInt?, natList? tk, natList? alls with
+    | some [z, n], some req, some taken, some all =>
+      let mAll := allTokensAt z n
+      let m := if n ≤ 12 then (match generateTokens n z req taken with        -- the model function itself
+          | .ok l => "ok:" ++ showToks l
+          | .error e => "err:" ++ e.name)
+        else match mAll with
+        | .error _ => "err:panic"
+        | .ok a => if req < 0 then "err:panic" else "ok:" ++ showToks (pickFree taken req.toNat a)
+      let diff := if m != obs then "model=" ++ (m.take 200).toString
+        else if mAll != .ok all then "model-all-differs" else "-"
+      let judge := match parseOk obs with
+        | some ts => judgeStr (judgeGen req taken all ts ++ (judgeInst z all).map ("all:" ++ ·))
+        | none => if req < 0 then "-" else "generation-failed"
+      let tkSet := mkSet taken
+      let hit := (all.filter (fun t => tkSet.contains t)).length
+      (diff, judge, s!"kind=gen id={if n ≤ 16 then "0-16" else ">16"} req={if req < 0 then "neg" else if req.toNat ≤ 512 - hit then "<=free" else ">free"} ownTaken={if hit == 0 then "none" else if hit ≥ 510 then "nearly-all" else "some"}")
+    | _, _, _, _ => ("bad-input", "-", "-")
+  | _ => ("bad-fields", "-", "-")
+
+def handleMap (f : List String) : String × String × String :=
+  match f with
+  | [zs, ns, _, obs] =>
+    match zs.toNat?, ns.toNat? with
+    | some z, some n =>
+      let model := mapAt z n
+      let m := match model with
+        | .ok s => showLists s.1
+        | .error e => "err:" ++ e.name
+      let diff := if m == obs then "-" else "model-map-differs"
+      let degen := match model with
+        | .ok s => if s.2 then "yes" else "no"
+        | .error _ => "err"
+      let (judge, worst) := match parseLists obs with
+        | some lists => let (b, w) := judgeMap z n lists; (judgeStr b, w)
+        | none => ("generation-failed", 0)
+      (diff, judge, s!"kind=map n={n} modelSideCondFired={degen} worstPrefixSpread={worst / 1000}.{worst % 1000 / 100}{worst % 100 / 10}{worst % 10}%")
+    | _, _ => ("bad-input", "-", "-")
+  | _ => ("bad-fields", "-", "-")
+
+def handlePart (f : List String) : String × String × String :=
+  match f with
+  | [idss, _, _, obs] =>
+    match natList? idss with
+    | some ids =>
+      let distinct := (mkSet ids).keys
+      let m := match distinct.mapM (fun id =>
+          if id ≤ 6 then partitionTokens id
+          else (allTokensAt 0 id).map (pickFree [] optimalTokensPerInstance)) with
+        | .ok ls => showLists ls
+        | .error e => "err:" ++ e.name
+      let diff := if m == obs then "-" else "model-partitions-differ"
+      let judge := match parseLists obs with
+        | some lists => judgeStr (judgePart ids lists)
+        | none => "generation-failed"
+      (diff, judge, s!"kind=part maxid={idClass (distinct.foldl max 0)}")
+    | none => ("bad-input", "-", "-")
+  | _ => ("bad-fields", "-", "-")
+
+def handleCalc (f : List String) : String × String × String :=
+  match f with
+  | [ts, ps, os, obs] =>
+    match ts.toNat?, ps.toNat?, os.toNat? with
+    | some t, some p, some o =>
+      let r := calcNewToken ⟨t, p⟩ o
+      let m := match r with
+        | .ok n => s!"ok:{n}"
+        | .error _ => "err"
+      let diff := if m == obs then "-" else "model=" ++ m
+      -- property text: a token is congruent to its zone index (here: to the bounds of its range)
+      let judge := match (obs.drop 3).toString.toNat? with
+        | some n => if obs.startsWith "ok:" ∧ p % 8 == t % 8 ∧ n % 8 != t % 8 then "not-congruent-to-zone" else "-"
+        | none => "-"
+      let wrap := decide ((4294967288 + 4294967296 - p) % 4294967296 < o)
+      (diff, judge, s!"kind=calc res={(obs.take 2).toString} wrapBranch={wrap}")
+    | _, _, _ => ("bad-input", "-", "-")
+  | _ => ("bad-fields", "-", "-")
+
+def handleOpt (f : List String) : String × String × String :=
+  match f with
+  | [is, cs, rs, obs] =>
+    match is.toNat?, cs.toInt?, rs.toNat? with
+    | some i, some c, some r =>
+      match optimalTokenOwnership i c r with
+      | .ok v =>
+        let m := toString v
+        (if m == obs then "-" else "model=" ++ m, "-", s!"kind=opt id={idClass i}")
+      | .error _ => ("-", "-", "kind=opt outOfDomain trivial")
+    | _, _, _ => ("bad-input", "-", "-")
+  | _ => ("bad-fields", "-", "-")
+
+def handleLess (f : List String) : String × String × String :=
+  match f with
+  | [a, b, _, obs] =>
+    match a.splitOn ",", b.splitOn "," with
+    | [oi, ki], [oj, kj] =>
+      match oi.toInt?, ki.toNat?, oj.toInt?, kj.toNat? with
+      | some oi, some ki, some oj, some kj =>
+        let m := toString (less oi ki oj kj)
+        (if m == obs then "-" else "model=" ++ m, "-", s!"kind=less eqOwn={decide (oi = oj)}")
+      | _, _, _, _ => ("bad-input", "-", "-")
+    | _, _ => ("bad-input", "-", "-")
+  | _ => ("bad-fields", "-", "-")
+
+def handleDist (f : List String) : String × String × String :=
+  match f with
+  | [a, b, _, obs] =>
+    match a.toNat?, b.toNat? with
+    | some a, some b =>
+      let m := toString (tokenDistance a b)
+      (if m == obs then "-" else "model=" ++ m, "-", s!"kind=dist wrap={decide (b ≤ a)}")
+    | _, _ => ("bad-input", "-", "-")
+  | _ => ("bad-fields", "-", "-")
+
+def handle (cmd : String) (f : List String) : String × String × String :=
+  if cmd == "C16.rand" then handleRand f
+  else if cmd == "C16.inst" then handleInst f
+  else if cmd == "C16.gen" then handleGen f
+  else if cmd == "C16.map" then handleMap f
+  else if cmd == "C16.part" then handlePart f
+  else if cmd == "C16.calc" then handleCalc f
+  else if cmd == "C16.opt" then handleOpt f
+  else if cmd == "C16.less" then handleLess f
+  else if cmd == "C16.dist" then handleDist f
+  else ("unknown-cmd", "-", "-")
 
 end OracleC16
